@@ -145,19 +145,22 @@ Section Sim.
     rewrite IHbs. auto.
   Qed.
 
+  Definition rest_flag (rest : option ident) : bool := match rest with Some _ => true | None => false end.
+
   (* ---------------------------------------------------------------- the value relation *)
   Inductive vrel : val -> mval -> Prop :=
   | vr_int : forall z, vrel (VInt z) (MInt z)
   | vr_bool : forall b, vrel (VBool b) (MBool b)
   | vr_void : vrel VVoid MVoid
   | vr_prim : forall p, vrel (VPrim p) (MPrim p)
-  | vr_clo : forall ps body r fvs caps,
+  | vr_clo : forall ps rest body r fvs caps,
       (forall j x, nth_error fvs j = Some x ->
          exists v mv, Core.lookup x r = Some v /\ nth_error caps j = Some mv /\ vrel v mv) ->
-      (forall x, fv x body = true -> memb x ps = false -> ~ In x fvs -> Core.lookup x r = None) ->
-      vrel (VClo ps body r)
-           (MClo (length ps) false
-                 (compile tco (body_cenv ps fvs) (length ps) tco body ++ [POPPURE]) caps).
+      (forall x, fv x body = true -> memb x (params ps rest) = false -> ~ In x fvs -> Core.lookup x r = None) ->
+      vrel (VClo ps rest body r)
+           (MClo (length (params ps rest)) (rest_flag rest)
+                 (compile tco (body_cenv (params ps rest) fvs) (length (params ps rest)) tco body ++ [POPPURE]) caps)
+  | vr_list : forall vs mvs, Forall2 vrel vs mvs -> vrel (VList vs) (MList mvs).
 
   Definition fetch (l : loc) (slots caps : list mval) : option mval :=
     match l with Slot i => nth_error slots i | Cap j => nth_error caps j end.
@@ -453,48 +456,105 @@ Section Sim.
       rewrite skipn_len_app, firstn_len_app; auto.
   Qed.
 
-  Lemma call_step_arity : forall tail C pcC st arity body caps n fs,
-    nth_error C pcC = Some (call_instr tail n) -> arity <> n ->
-    vm_step (mkVM C pcC (st ++ [MClo arity false body caps]) fs MG) = SErr EArity.
+  Lemma call_step_arity : forall tail C pcC st arity rest body caps n fs,
+    nth_error C pcC = Some (call_instr tail n) -> adjust_arity arity rest n st = inr EArity ->
+    vm_step (mkVM C pcC (st ++ [MClo arity rest body caps]) fs MG) = SErr EArity.
   Proof.
     intros. unfold Bytecode.vm_step. simpl. rewrite H. unfold call_instr.
-    destruct tail; rewrite unsnoc_app; simpl; unfold adjust_arity;
-      (replace (Nat.eqb arity n) with false by (symmetry; apply Nat.eqb_neq; auto)); auto.
+    destruct tail; rewrite unsnoc_app; simpl; rewrite H0; auto.
   Qed.
 
-  Lemma call_step_func : forall C pcC st0 mvs n arity body caps fs,
-    n = length mvs -> arity = length mvs ->
-    nth_error C pcC = Some (FUNC n) -> S (length fs) < limit ->
-    vm_step (mkVM C pcC ((st0 ++ mvs) ++ [MClo arity false body caps]) fs MG) =
-    SNext (mkVM body 0 (st0 ++ mvs)
-                (mkFrame (length st0) (MClo arity false body caps) (S pcC) C :: fs) MG).
+  Lemma call_step_func : forall C pcC st0 mvs mws n arity rest body caps fs,
+    nth_error C pcC = Some (FUNC n) ->
+    adjust_arity arity rest n (st0 ++ mvs) = inl (Some (st0 ++ mws)) -> arity = length mws ->
+    S (length fs) < limit ->
+    vm_step (mkVM C pcC ((st0 ++ mvs) ++ [MClo arity rest body caps]) fs MG) =
+    SNext (mkVM body 0 (st0 ++ mws)
+                (mkFrame (length st0) (MClo arity rest body caps) (S pcC) C :: fs) MG).
   Proof.
-    intros C pcC st0 mvs n arity body caps fs -> -> H Hl.
-    unfold Bytecode.vm_step. simpl. rewrite H. rewrite unsnoc_app. simpl. unfold adjust_arity.
-    rewrite Nat.eqb_refl.
-    replace (Nat.leb (length mvs) (length (st0 ++ mvs))) with true
+    intros C pcC st0 mvs mws n arity rest body caps fs H Hadj -> Hl.
+    unfold Bytecode.vm_step. simpl. rewrite H. rewrite unsnoc_app. simpl. rewrite Hadj.
+    replace (Nat.leb (length mws) (length (st0 ++ mws))) with true
       by (symmetry; apply Nat.leb_le; rewrite app_length; lia).
     replace (Nat.leb limit (S (length fs))) with false by (symmetry; apply Nat.leb_gt; lia).
-    rewrite app_length. replace (length st0 + length mvs - length mvs) with (length st0) by lia. auto.
+    rewrite app_length. replace (length st0 + length mws - length mws) with (length st0) by lia. auto.
   Qed.
 
-  Lemma call_step_tail : forall C pcC below slots mvs n arity body caps f0 fs0,
-    n = length mvs -> arity = length mvs ->
-    nth_error C pcC = Some (TAILCALL n) -> length below = f_sp f0 ->
-    vm_step (mkVM C pcC ((below ++ slots ++ mvs) ++ [MClo arity false body caps]) (f0 :: fs0) MG) =
-    SNext (mkVM body 0 (below ++ mvs)
-                (mkFrame (f_sp f0) (MClo arity false body caps) (f_ret_ip f0) (f_ret_code f0) :: fs0) MG).
+  Lemma call_step_tail : forall C pcC below slots mvs mws n arity rest body caps f0 fs0,
+    nth_error C pcC = Some (TAILCALL n) ->
+    adjust_arity arity rest n ((below ++ slots) ++ mvs) = inl (Some ((below ++ slots) ++ mws)) ->
+    arity = length mws -> length below = f_sp f0 ->
+    vm_step (mkVM C pcC (((below ++ slots) ++ mvs) ++ [MClo arity rest body caps]) (f0 :: fs0) MG) =
+    SNext (mkVM body 0 (below ++ mws)
+                (mkFrame (f_sp f0) (MClo arity rest body caps) (f_ret_ip f0) (f_ret_code f0) :: fs0) MG).
   Proof.
-    intros C pcC below slots mvs n arity body caps f0 fs0 -> -> H H0.
-    unfold Bytecode.vm_step. simpl. rewrite H. rewrite unsnoc_app. simpl. unfold adjust_arity.
-    rewrite Nat.eqb_refl. simpl.
-    replace (Nat.leb (length mvs) (length (below ++ slots ++ mvs))) with true
+    intros C pcC below slots mvs mws n arity rest body caps f0 fs0 H Hadj -> H0.
+    unfold Bytecode.vm_step. simpl. rewrite H. rewrite unsnoc_app. simpl. rewrite Hadj. simpl.
+    replace (Nat.leb (length mws) (length ((below ++ slots) ++ mws))) with true
       by (symmetry; apply Nat.leb_le; rewrite !app_length; lia).
-    replace (Nat.leb (f_sp f0) (length (below ++ slots ++ mvs) - length mvs)) with true
+    replace (Nat.leb (f_sp f0) (length ((below ++ slots) ++ mws) - length mws)) with true
       by (symmetry; apply Nat.leb_le; rewrite !app_length; lia).
-    simpl. rewrite <- H0. rewrite firstn_app_exact.
-    replace (below ++ slots ++ mvs) with ((below ++ slots) ++ mvs) by (rewrite <- app_assoc; auto).
-    rewrite skipn_len_app. auto.
+    simpl. rewrite <- H0. rewrite <- app_assoc. rewrite firstn_app_exact.
+    rewrite app_assoc. rewrite skipn_len_app. auto.
+  Qed.
+
+  (* the operands a closure's parameters are bound to, on both sides (adjust_stack_for_multi_arity) *)
+  Lemma Forall2_firstn : forall A B (R : A -> B -> Prop) k l1 l2, Forall2 R l1 l2 -> Forall2 R (firstn k l1) (firstn k l2).
+  Proof. induction k; intros; simpl; [constructor|]. destruct H; constructor; auto. Qed.
+
+  Lemma Forall2_skipn : forall A B (R : A -> B -> Prop) k l1 l2, Forall2 R l1 l2 -> Forall2 R (skipn k l1) (skipn k l2).
+  Proof. induction k; intros; simpl; auto. destruct H; auto. Qed.
+
+  Lemma Forall2_app2 : forall A B (R : A -> B -> Prop) a1 a2 b1 b2, Forall2 R a1 a2 -> Forall2 R b1 b2 -> Forall2 R (a1 ++ b1) (a2 ++ b2).
+  Proof. induction 1; simpl; auto. Qed.
+
+  Lemma skipn_app_plus : forall A (a b : list A) k, skipn (length a + k) (a ++ b) = skipn k b.
+  Proof. induction a; simpl; intros; auto. Qed.
+
+  Lemma adjust_rest : forall a n st0 mvs, n = length mvs -> 1 <= a -> a - 1 <= n ->
+    adjust_arity a true n (st0 ++ mvs) =
+    inl (Some (st0 ++ firstn (a - 1) mvs ++ [MList (skipn (a - 1) mvs)])).
+  Proof.
+    intros a n st0 mvs -> Ha Hn. cbv beta zeta delta [adjust_arity].
+    destruct (Nat.ltb (length mvs) (a - 1)) eqn:E1; [apply Nat.ltb_lt in E1; lia|].
+    destruct (Nat.leb (1 + length mvs - a) (length (st0 ++ mvs))) eqn:E2.
+    2:{ apply Nat.leb_gt in E2. rewrite app_length in E2. lia. }
+    replace (length (st0 ++ mvs) - (1 + length mvs - a)) with (length st0 + (a - 1))
+      by (rewrite app_length; lia).
+    rewrite firstn_app_more, skipn_app_plus, <- app_assoc. reflexivity.
+  Qed.
+
+  Lemma adjust_ok : forall ps rest vs xs ws mvs st0,
+    call_args ps rest vs = Some (xs, ws) -> Forall2 vrel vs mvs ->
+    exists mws, adjust_arity (length (params ps rest)) (rest_flag rest) (length mvs) (st0 ++ mvs) = inl (Some (st0 ++ mws)) /\
+      Forall2 vrel ws mws /\ xs = params ps rest /\ length xs = length ws.
+  Proof.
+    intros ps rest vs xs ws mvs st0 Hc HF. pose proof (Forall2_len _ _ _ _ _ HF) as Hl.
+    unfold call_args in Hc. destruct rest as [r|]; cbn [params rest_flag].
+    - destruct (Nat.leb (length ps) (length vs)) eqn:E; [|discriminate]. apply Nat.leb_le in E.
+      inversion Hc; subst xs ws. clear Hc.
+      exists (firstn (length ps) mvs ++ [MList (skipn (length ps) mvs)]).
+      rewrite adjust_rest; try (rewrite app_length; simpl; lia); auto.
+      rewrite app_length. cbn [length]. replace (length ps + 1 - 1) with (length ps) by lia.
+      repeat split; auto.
+      + apply Forall2_app2. apply Forall2_firstn; auto. constructor; [|constructor].
+        constructor. apply Forall2_skipn; auto.
+      + rewrite !app_length. rewrite firstn_length. cbn [length]. lia.
+    - destruct (Nat.eqb (length ps) (length vs)) eqn:E; [|discriminate]. apply Nat.eqb_eq in E.
+      inversion Hc; subst xs ws. exists mvs. unfold adjust_arity.
+      replace (Nat.eqb (length ps) (length mvs)) with true by (symmetry; apply Nat.eqb_eq; lia).
+      auto.
+  Qed.
+
+  Lemma adjust_err : forall ps rest vs n st,
+    call_args ps rest vs = None -> length vs = n ->
+    adjust_arity (length (params ps rest)) (rest_flag rest) n st = inr EArity.
+  Proof.
+    intros ps rest vs n st Hc <-. unfold call_args in Hc. destruct rest as [r|]; cbn [params rest_flag].
+    - destruct (Nat.leb (length ps) (length vs)) eqn:E; [discriminate|]. apply Nat.leb_gt in E.
+      cbv beta zeta delta [adjust_arity]. rewrite app_length. cbn [length].
+      destruct (Nat.ltb (length vs) (length ps + 1 - 1)) eqn:E1; auto. apply Nat.ltb_ge in E1. lia.
+    - destruct (Nat.eqb (length ps) (length vs)) eqn:E; [discriminate|]. unfold adjust_arity. rewrite E. auto.
   Qed.
 
   (* ---------------------------------------------------------------- function entry *)
@@ -537,7 +597,7 @@ Section Sim.
     intros ce tail C pc below slots caps fs Hc Hb Hfc HR1 HR2 Hlim Htail.
     assert (IH' : sim_at n) by exact IH.
     assert (Hlim' : length fs + n <= limit) by lia.
-    destruct e as [c|x|ps e|fe args|e1 e2 e3|bs e|e1 e2]; simpl in Hev.
+    destruct e as [c|x|ps rest e|fe args|e1 e2 e3|bs e|e1 e2]; simpl in Hev.
     - (* EConst *)
       inversion Hev; subst res. simpl. exists (const_mval c). split; [apply vrel_const|].
       simpl in Hc. apply code_at_cons in Hc. destruct Hc as [Hi _].
@@ -568,12 +628,13 @@ Section Sim.
           unfold Bytecode.vm_step. simpl. rewrite Hi. simpl. rewrite HxM. auto.
     - (* ELam *)
       inversion Hev; subst res. simpl in Hc. apply code_at_cons in Hc. destruct Hc as [Hi _].
-      destruct (fetch_caps_ok r ce below slots caps fs HR1 Hfc Hb (captured ce ps e))
+      set (xs := params ps rest) in *.
+      destruct (fetch_caps_ok r ce below slots caps fs HR1 Hfc Hb (captured ce xs e))
         as (caps' & Hfetch & Hall). { intros y Hy. eapply captured_in; eauto. }
-      simpl. exists (MClo (length ps) false
-                       (compile tco (body_cenv ps (captured ce ps e)) (length ps) tco e ++ [POPPURE]) caps').
+      simpl. exists (MClo (length xs) (rest_flag rest)
+                       (compile tco (body_cenv xs (captured ce xs e)) (length xs) tco e ++ [POPPURE]) caps').
       split.
-      + constructor; auto.
+      + unfold xs. constructor; auto.
         intros y Hfv Hps Hnot. apply HR2.
         * simpl. rewrite Hps, Hfv. auto.
         * destruct (Core.lookup y ce) eqn:Hy; auto. exfalso. apply Hnot.
@@ -641,32 +702,34 @@ Section Sim.
         * simpl. eexists. split; [apply star_refl|]. exact Hp.
       + (* closure *)
         rename H into Hcaps, H0 into Hfree.
-        destruct (Nat.eqb (length ps) (length vs)) eqn:Har.
+        set (xs := params ps rest) in *.
+        destruct (call_args ps rest vs) as [[xs' ws]|] eqn:Hcargs.
         2:{ inversion Hev; subst res. simpl. eexists. split; [apply star_refl|].
-            eapply call_step_arity; eauto. apply Nat.eqb_neq in Har. lia. }
-        apply Nat.eqb_eq in Har.
-        set (bodyc := compile tco (body_cenv ps fvs) (length ps) tco body) in *.
-        assert (HRe1 : R1 (bind ps vs r0) (body_cenv ps fvs) mvs caps0) by (apply entry_R1; auto).
-        assert (HRe2 : R2 body (bind ps vs r0) (body_cenv ps fvs)) by (apply entry_R2; auto).
-        assert (Hpm : length ps = length mvs) by lia.
-        assert (Hcb : code_at (bodyc ++ [POPPURE]) 0 (compile tco (body_cenv ps fvs) (length mvs) tco body)).
+            eapply call_step_arity; eauto. eapply adjust_err; eauto. }
+        destruct (adjust_ok ps rest vs xs' ws mvs (below ++ slots) Hcargs HF) as (mws & Hadj & HFw & Hxs & Hlw).
+        fold xs in Hxs, Hadj. subst xs'. rewrite Hlenm in Hadj.
+        set (bodyc := compile tco (body_cenv xs fvs) (length xs) tco body) in *.
+        assert (Hpm : length xs = length mws) by (rewrite Hlw; eapply Forall2_len; eauto).
+        assert (HRe1 : R1 (bind xs ws r0) (body_cenv xs fvs) mws caps0) by (apply entry_R1; auto).
+        assert (HRe2 : R2 body (bind xs ws r0) (body_cenv xs fvs)) by (apply entry_R2; auto).
+        assert (Hcb : code_at (bodyc ++ [POPPURE]) 0 (compile tco (body_cenv xs fvs) (length mws) tco body)).
         { rewrite <- Hpm. apply code_at_zero. }
         assert (Hrf : returns_from (bodyc ++ [POPPURE])
-                        (0 + length (compile tco (body_cenv ps fvs) (length mvs) tco body)) (length mvs)).
+                        (0 + length (compile tco (body_cenv xs fvs) (length mws) tco body)) (length mws)).
         { rewrite <- Hpm. apply rf_pop. simpl. fold bodyc. apply nth_error_mid. }
+        set (clo := MClo (length xs) (rest_flag rest) (bodyc ++ [POPPURE]) caps0) in *.
         destruct tail.
         * (* TAILCALL: the frame is reused *)
           destruct (Htail eq_refl) as [Hne _]. destruct fs as [|f0 fs0]; [congruence|].
           simpl in Hb.
-          set (f0' := mkFrame (f_sp f0) (MClo (length ps) false (bodyc ++ [POPPURE]) caps0) (f_ret_ip f0) (f_ret_code f0)).
-          assert (Hstep : vm_step (mkVM C pcC (((below ++ slots) ++ mvs) ++ [MClo (length ps) false (bodyc ++ [POPPURE]) caps0]) (f0 :: fs0) MG)
-                          = SNext (mkVM (bodyc ++ [POPPURE]) 0 (below ++ mvs) (f0' :: fs0) MG)).
-          { replace ((below ++ slots) ++ mvs) with (below ++ slots ++ mvs) by (rewrite <- app_assoc; auto).
-            apply call_step_tail with (n := length args); [lia|lia|exact HiC|exact Hb]. }
+          set (f0' := mkFrame (f_sp f0) clo (f_ret_ip f0) (f_ret_code f0)).
+          assert (Hstep : vm_step (mkVM C pcC (((below ++ slots) ++ mvs) ++ [clo]) (f0 :: fs0) MG)
+                          = SNext (mkVM (bodyc ++ [POPPURE]) 0 (below ++ mws) (f0' :: fs0) MG)).
+          { unfold clo. eapply call_step_tail; eauto. }
           assert (Htk : tail_ok tco (bodyc ++ [POPPURE])
-                          (0 + length (compile tco (body_cenv ps fvs) (length mvs) tco body)) (length mvs) (f0' :: fs0)).
+                          (0 + length (compile tco (body_cenv xs fvs) (length mws) tco body)) (length mws) (f0' :: fs0)).
           { intros _. split; [discriminate|exact Hrf]. }
-          pose proof (IH' _ body res Hev _ tco (bodyc ++ [POPPURE]) 0 below mvs caps0 (f0' :: fs0)
+          pose proof (IH' _ body res Hev _ tco (bodyc ++ [POPPURE]) 0 below mws caps0 (f0' :: fs0)
                           Hcb Hb (ex_intro _ _ (ex_intro _ _ (ex_intro _ _ eq_refl))) HRe1 HRe2) as H3.
           specialize (H3 ltac:(simpl in *; lia) Htk).
           destruct res as [v|k]; simpl in *.
@@ -677,26 +740,28 @@ Section Sim.
              eapply outcome_to_ret; eauto.
           -- destruct H3 as (s' & Hst & He). exists s'. split; auto. eapply step_star; eauto.
         * (* FUNC: a new frame *)
-          set (clo := MClo (length ps) false (bodyc ++ [POPPURE]) caps0) in *.
           set (fr := mkFrame (length (below ++ slots)) clo (S pcC) C).
           assert (Hstep : vm_step (mkVM C pcC (((below ++ slots) ++ mvs) ++ [clo]) fs MG)
-                          = SNext (mkVM (bodyc ++ [POPPURE]) 0 ((below ++ slots) ++ mvs) (fr :: fs) MG)).
-          { apply call_step_func with (n := length args); [lia|unfold clo; lia|exact HiC|].
+                          = SNext (mkVM (bodyc ++ [POPPURE]) 0 ((below ++ slots) ++ mws) (fr :: fs) MG)).
+          { unfold clo. eapply call_step_func; eauto.
             apply ceval_fuel_pos in Hev. lia. }
           assert (Htk : tail_ok tco (bodyc ++ [POPPURE])
-                          (0 + length (compile tco (body_cenv ps fvs) (length mvs) tco body)) (length mvs) (fr :: fs)).
+                          (0 + length (compile tco (body_cenv xs fvs) (length mws) tco body)) (length mws) (fr :: fs)).
           { intros _. split; [discriminate|exact Hrf]. }
-          pose proof (IH' _ body res Hev _ tco (bodyc ++ [POPPURE]) 0 (below ++ slots) mvs caps0 (fr :: fs)
+          pose proof (IH' _ body res Hev _ tco (bodyc ++ [POPPURE]) 0 (below ++ slots) mws caps0 (fr :: fs)
                           Hcb eq_refl (ex_intro _ _ (ex_intro _ _ (ex_intro _ _ eq_refl))) HRe1 HRe2) as H3.
           specialize (H3 ltac:(simpl in *; lia) Htk).
           destruct res as [v|k]; simpl in *.
           -- destruct H3 as (mv & Hrel & Ho). exists mv. split; auto.
              eapply step_star; [exact Hstep|].
-             assert (Hr : star (mkVM (bodyc ++ [POPPURE]) 0 ((below ++ slots) ++ mvs) (fr :: fs) MG)
+             assert (Hr : star (mkVM (bodyc ++ [POPPURE]) 0 ((below ++ slots) ++ mws) (fr :: fs) MG)
                                (ret_state fr (below ++ slots) fs mv)).
              { eapply outcome_to_ret; eauto. }
              unfold ret_state in Hr. simpl in Hr. unfold fall_state. rewrite app_assoc. exact Hr.
           -- destruct H3 as (s' & Hst & He). exists s'. split; auto. eapply step_star; eauto.
+      + (* a list is not a procedure *)
+        inversion Hev; subst res. simpl. eexists. split; [apply star_refl|].
+        eapply call_step_notproc; eauto; simpl; auto.
     - (* EIf *)
       remember (compile tco ce (length slots) false e1) as cc eqn:Ecc.
       remember (compile tco ce (length slots) tail e2) as ct eqn:Ect.
@@ -975,8 +1040,11 @@ Proof.
 Qed.
 
 (* related results print the same *)
-Lemma vrel_canon : forall tco v mv, vrel tco v mv -> canon_val v = canon_mval 100 mv.
-Proof. destruct 1; simpl; auto. Qed.
+Lemma vrel_canon : forall tco v mv, vrel tco v mv -> canon_val v = canon_mval mv.
+Proof.
+  intros tco. fix IH 3. intros v mv H. destruct H; simpl; auto.
+  f_equal. f_equal. f_equal. induction H; simpl; auto. f_equal; auto.
+Qed.
 
 (* ------------------------------------------------------------------ facts about ceval singled out by the property *)
 Lemma var_latest : forall G n r x v, ceval G (S n) ((x, v) :: r) (EVar x) = Some (Val v).
@@ -1005,15 +1073,15 @@ Lemma dead_branch_false : forall G n r c t1 t2 e v,
 Proof. intros. simpl. rewrite H, H0. auto. Qed.
 
 (* an uncalled lambda body contributes nothing: creating the closure succeeds whatever the body is *)
-Lemma dead_lambda_body : forall G n r ps body,
-  ceval G (S n) r (ELam ps body) = Some (Val (VClo ps body r)).
+Lemma dead_lambda_body : forall G n r ps rest body,
+  ceval G (S n) r (ELam ps rest body) = Some (Val (VClo ps rest body r)).
 Proof. auto. Qed.
 
 Lemma dead_code_silent : forall G n r c t e1 e2 v,
   ceval G n r c = Some (Val v) ->
   (truthy v = true -> ceval G (S n) r (EIf c t e1) = ceval G (S n) r (EIf c t e2)) /\
   (truthy v = false -> ceval G (S n) r (EIf c e1 t) = ceval G (S n) r (EIf c e2 t)) /\
-  (forall ps body, ceval G (S n) r (ELam ps body) = Some (Val (VClo ps body r))).
+  (forall ps rest body, ceval G (S n) r (ELam ps rest body) = Some (Val (VClo ps rest body r))).
 Proof.
   intros G n r c t e1 e2 v H. split; [|split].
   - intros Ht. simpl. rewrite H, Ht. auto.
@@ -1038,18 +1106,68 @@ Proof.
     + eapply IH; eauto.
 Qed.
 
-Lemma call_args_exact : forall G n r f args ps body r' vs,
+Lemma call_args_exact : forall G n r f args ps rest body r' vs,
   evals (ceval G n r) args = Some (inl vs) ->
-  ceval G n r f = Some (Val (VClo ps body r')) ->
-  (length ps = length vs -> ceval G (S n) r (EApp f args) = ceval G n (bind ps vs r') body) /\
-  (length ps <> length vs -> ceval G (S n) r (EApp f args) = Some (Err EArity)) /\
-  (NoDup ps -> length ps = length vs -> forall i x v, nth_error ps i = Some x -> nth_error vs i = Some v ->
-     Core.lookup x (bind ps vs r') = Some v) /\
+  ceval G n r f = Some (Val (VClo ps rest body r')) ->
+  (* the call evaluates the body with the parameters bound by [call_args], or is an arity error *)
+  ceval G (S n) r (EApp f args) =
+    match call_args ps rest vs with
+    | Some (xs, ws) => ceval G n (bind xs ws r') body
+    | None => Some (Err EArity)
+    end /\
+  (* fixed arity: exactly the evaluated operands, position by position *)
+  (rest = None -> length ps = length vs -> call_args ps rest vs = Some (ps, vs)) /\
+  (rest = None -> length ps <> length vs -> call_args ps rest vs = None) /\
+  (* rest parameter r: the first |ps| operands, then the list of the remaining ones *)
+  (forall r0, rest = Some r0 -> length ps <= length vs ->
+     call_args ps rest vs = Some (ps ++ [r0], firstn (length ps) vs ++ [VList (skipn (length ps) vs)])) /\
+  (forall xs ws, call_args ps rest vs = Some (xs, ws) -> NoDup xs ->
+     forall i x v, nth_error xs i = Some x -> nth_error ws i = Some v -> Core.lookup x (bind xs ws r') = Some v) /\
   length vs = length args.
 Proof.
-  intros G n r f args ps body r' vs He Hf. repeat split.
-  - intros Hl. simpl. rewrite He, Hf. apply Nat.eqb_eq in Hl. rewrite Hl. auto.
-  - intros Hl. simpl. rewrite He, Hf. apply Nat.eqb_neq in Hl. rewrite Hl. auto.
-  - intros. eapply lookup_bind_nth; eauto.
+  intros G n r f args ps rest body r' vs He Hf. repeat split.
+  - simpl. rewrite He, Hf. destruct (call_args ps rest vs) as [[xs ws]|]; auto.
+  - intros -> Hl. unfold call_args. apply Nat.eqb_eq in Hl. rewrite Hl. auto.
+  - intros -> Hl. unfold call_args. apply Nat.eqb_neq in Hl. rewrite Hl. auto.
+  - intros r0 -> Hl. unfold call_args. apply Nat.leb_le in Hl. rewrite Hl. auto.
+  - intros xs ws Hc Hnd i x v Hx Hv. eapply lookup_bind_nth; eauto.
+    unfold call_args in Hc. destruct rest.
+    + destruct (Nat.leb (length ps) (length vs)) eqn:E; [|discriminate]. apply Nat.leb_le in E.
+      inversion Hc; subst. rewrite !app_length, firstn_length. simpl. lia.
+    + destruct (Nat.eqb (length ps) (length vs)) eqn:E; [|discriminate]. apply Nat.eqb_eq in E.
+      inversion Hc; subst. auto.
   - eapply evals_length; eauto.
+Qed.
+
+(* ------------------------------------------------------------------ rest parameters: the entry of a variadic closure *)
+Lemma rest_entry : forall limit tco MG ps r body r' clo vs mvs xs ws C pcC st0 fs,
+  vrel tco (VClo ps (Some r) body r') clo ->
+  call_args ps (Some r) vs = Some (xs, ws) -> Forall2 (vrel tco) vs mvs ->
+  nth_error C pcC = Some (FUNC (length mvs)) -> S (length fs) < limit ->
+  exists mws code caps fvs,
+    clo = MClo (length ps + 1) true code caps /\
+    xs = ps ++ [r] /\ ws = firstn (length ps) vs ++ [VList (skipn (length ps) vs)] /\
+    mws = firstn (length ps) mvs ++ [MList (skipn (length ps) mvs)] /\
+    vm_step limit (mkVM C pcC ((st0 ++ mvs) ++ [clo]) fs MG) =
+      SNext (mkVM code 0 (st0 ++ mws) (mkFrame (length st0) clo (S pcC) C :: fs) MG) /\
+    Forall2 (vrel tco) ws mws /\
+    R1 tco (bind xs ws r') (body_cenv xs fvs) mws caps.
+Proof.
+  intros limit tco MG ps r body r' clo vs mvs xs ws C pcC st0 fs Hrel Hc HF Hi Hl.
+  inversion Hrel; subst.
+  destruct (adjust_ok tco ps (Some r) vs xs ws mvs st0 Hc HF) as (mws & Hadj & HFw & Hxs & Hlw).
+  pose proof (Forall2_len _ _ _ _ _ HF) as Hlen.
+  assert (Hc' := Hc). unfold call_args in Hc'.
+  destruct (Nat.leb (length ps) (length vs)) eqn:E; [|discriminate]. apply Nat.leb_le in E.
+  inversion Hc'; subst xs ws.
+  assert (Hmws : mws = firstn (length ps) mvs ++ [MList (skipn (length ps) mvs)]).
+  { cbn [params rest_flag] in Hadj. rewrite adjust_rest in Hadj; try (rewrite app_length; simpl; lia); auto.
+    rewrite app_length in Hadj. cbn [length] in Hadj. replace (length ps + 1 - 1) with (length ps) in Hadj by lia.
+    inversion Hadj as [Heq]. apply app_inv_head in Heq. auto. }
+  exists mws. eexists. exists caps, fvs. cbn [params rest_flag]. rewrite app_length. cbn [length].
+  split; [reflexivity|]. split; auto. split; auto. split; auto. split.
+  - eapply (call_step_func limit MG); eauto.
+    + cbn [params rest_flag] in Hadj. rewrite app_length in Hadj. exact Hadj.
+    + rewrite Hmws, app_length, firstn_length. cbn [length]. lia.
+  - split; auto. apply entry_R1; auto.
 Qed.
